@@ -48,6 +48,7 @@ func ContainerTemplates() []Op {
 		{K: "fmtlen", W: 13},
 		{K: "fmtrange", Off: 3, W: 8},
 		{K: "fmt"},
+		{K: "fmtin"},
 		{K: "fmtorraw", W: 8},
 		{K: "rootstruct", W: 16, D: "rev"},
 		{K: "rootarray", W: 13, D: "not"},
